@@ -442,8 +442,11 @@ def _zk2fs_ext(ctx):
     """Beyond C12: the other ZooKeeper -> file system mirror of the code base (zksync.zk2fs.Zk2Fs) against
     specs/cell/ZkMirror.tla.  Conformance class DRIFT; a failure of this extension never decides C12."""
     try:
-        out = zkmirror_driver.run_ext(ctx)
-        out['two_levels'] = zkmirror_driver.run_ext2(ctx)
+        with concurrent.futures.ThreadPoolExecutor(2) as pool:
+            f1 = pool.submit(zkmirror_driver.run_ext, ctx)
+            f2 = pool.submit(zkmirror_driver.run_ext2, ctx)
+            out = f1.result()
+            out['two_levels'] = f2.result()
         return out
     except Exception as e:  # pylint: disable=broad-except
         ctx.log('ext zk2fs not evaluated: %s: %s' % (type(e).__name__, str(e)[:300]))
